@@ -135,17 +135,22 @@ pub fn table_string(g: &G) -> String {
 pub fn gen_family(t: &mut Tape, tier: Tier) -> Option<super::family::Family> {
     super::family::gen_family(t, tier, 9)
 }
+pub fn check_soak(s: &super::family::Soak, ctx: &mut Ctx) -> Result<(), Failure> {
+    super::family::check_soak(s, ctx, &|g: &G, c: &mut Ctx| check(&Case { g: g.clone(), pushed: None }, c))
+}
 pub fn check_family(f: &super::family::Family, ctx: &mut Ctx) -> Result<(), Failure> {
     super::family::check_family(f, ctx, &|g: &G, c: &mut Ctx| check(&Case { g: g.clone(), pushed: None }, c))
 }
 #[derive(Clone, Debug, Serialize, Deserialize)]
 #[serde(untagged)]
 pub enum Any {
+    Soak(super::family::Soak),
     Fam(super::family::Family),
     One(Case),
 }
 pub fn check_any(c: &Any, ctx: &mut Ctx) -> Result<(), Failure> {
     match c {
+        Any::Soak(s) => check_soak(s, ctx),
         Any::Fam(f) => check_family(f, ctx),
         Any::One(g) => check(g, ctx),
     }
@@ -156,6 +161,8 @@ pub fn run(tier: Tier, seed: u64) -> i32 {
     let mut stats = engine::run_spec(&sp, tier, seed);
     let spf = Spec { id: "C05", rule: RULE, tape_len: 220, cases: tier.pick(16_000, 160_000), gen: gen_family, check: check_family, max_shrink_iters: 2000, shards: 16 };
     stats.merge(engine::run_spec(&spf, tier, seed ^ 0xfa5));
+    let sps = Spec { id: "C05", rule: RULE, tape_len: 700, cases: tier.pick(16, 160), gen: super::family::gen_soak, check: check_soak, max_shrink_iters: 60, shards: 16 };
+    stats.merge(engine::run_spec(&sps, tier, seed ^ 0x50a6));
     engine::run_regressions::<Any>("C05", check_any, &mut stats);
     let extra = crate::props::xproc::cross_process_tables(tier, seed, &mut stats);
     engine::finish("C05", tier, seed, RULE, stats, t0, extra, &["exact rational omega from the reference model", "determinism across hash seeds sampled by repeated in-process builds (ahash RandomState differs per instance) and one fresh process"])
